@@ -314,4 +314,86 @@ amg_rebuild = Unit(
     mode='inductive', obj_bits=12, timeout=200, assumptions=A_SETUP,
 )
 
-UNITS = [galerkin, scaled_galerkin, aggr_coarse, sa_coarse, step_down, rebuild_level, amg_rebuild]
+
+# ------------------------------------------------------------------ amg::do_init
+DO_INIT_T = HDR + r"""
+typedef struct hmat { int id; _Bool null; } hmat;           /* shared_ptr<build_matrix> handle viewed as a value (null = empty pointer) */
+typedef struct init_prm { size_t coarse_enough; _Bool direct_coarse; size_t max_levels; _Bool allow_rebuild; } init_prm;
+/* ghost: the hierarchy under construction */
+size_t g_nlev; int g_last_kind; int g_last_mat; _Bool g_chain_ok; unsigned long g_steps;
+enum { K_SMOOTHER = 1, K_DIRECT = 2 };
+#undef rows
+#undef cols
+#define rows(a) ROWS((a).id)
+#define cols(a) COLS((a).id)
+/* levels.push_back(level(A, prm, bprm)): a level with a smoother built from A */
+void bk_push_level(hmat A)
+__CPROVER_requires(!A.null)
+__CPROVER_assigns(g_nlev, g_last_kind, g_last_mat)
+__CPROVER_ensures(g_nlev == __CPROVER_old(g_nlev) + 1 && g_last_kind == K_SMOOTHER && g_last_mat == A.id);
+/* level l; l.create_coarse(A, bprm, single); levels.push_back(l): a level with the direct solver built from A */
+void bk_push_coarse(hmat A, _Bool single_level)
+__CPROVER_requires(!A.null)
+__CPROVER_assigns(g_nlev, g_last_kind, g_last_mat, g_chain_ok)
+__CPROVER_ensures(g_nlev == __CPROVER_old(g_nlev) + 1 && g_last_kind == K_DIRECT && g_last_mat == A.id)
+__CPROVER_ensures(g_chain_ok == (__CPROVER_old(g_chain_ok) && single_level == (__CPROVER_old(g_nlev) == 0)));
+/* levels.back().step_down(A, C, bprm, allow_rebuild): must be applied to the level just pushed, with the matrix that level was built from */
+hmat bk_step_down(hmat A, _Bool allow_rebuild, _Bool allow_rebuild_prm)
+__CPROVER_requires(!A.null)
+__CPROVER_assigns(g_chain_ok, g_steps)
+__CPROVER_ensures(g_steps == __CPROVER_old(g_steps) + 1)
+__CPROVER_ensures(g_chain_ok == (__CPROVER_old(g_chain_ok) && g_last_kind == K_SMOOTHER && g_last_mat == A.id && allow_rebuild == allow_rebuild_prm));
+#define PUSH_LEVEL(A) bk_push_level(A)
+#define PRECONDITION2(c) do { if (!(c)) { g_thrown = 1; return; } } while (0)
+
+void f_do_init(const init_prm *self, hmat A)
+__CPROVER_requires(__CPROVER_is_fresh(self, sizeof(*self)) && !A.null)
+__CPROVER_requires(g_nlev == 0 && g_chain_ok && g_steps == 0 && g_last_kind == 0 && !g_thrown && self->max_levels <= (1UL << 40))
+__CPROVER_assigns(g_thrown, g_nlev, g_last_kind, g_last_mat, g_chain_ok, g_steps)
+/* non-square input is refused */
+__CPROVER_ensures(ROWS(A.id) != COLS(A.id) ==> (g_thrown && g_nlev == 0))
+/* every step_down is applied to the level just built, with that level's matrix and the configured allow_rebuild */
+__CPROVER_ensures(!g_thrown ==> g_chain_ok)
+/* C03: a direct-solver level only for a matrix with at most coarse_enough rows and only when direct_coarse is set */
+__CPROVER_ensures((!g_thrown && g_last_kind == K_DIRECT) ==> (ROWS(g_last_mat) <= self->coarse_enough && self->direct_coarse))
+/* a problem that is already small enough gets exactly one level: the direct solver if direct_coarse, else a smoother */
+__CPROVER_ensures((!g_thrown && ROWS(A.id) <= self->coarse_enough) ==> (g_nlev == 1 && g_steps == 0 && g_last_mat == A.id
+                   && g_last_kind == (self->direct_coarse ? K_DIRECT : K_SMOOTHER)))
+/* the level budget is respected */
+__CPROVER_ensures((!g_thrown && self->max_levels >= 1 && ROWS(A.id) > self->coarse_enough) ==> g_nlev <= self->max_levels)
+__CPROVER_ensures(!g_thrown ==> g_nlev >= 1)
+{
+  const init_prm prm = *self;
+/*@CUT:body@*/
+}
+void h_f_do_init(void) { const init_prm *s; hmat A; f_do_init(s, A); }
+"""
+DO_INIT_LOOP = r"""
+__CPROVER_assigns(A, direct_coarse_solve, g_nlev, g_last_kind, g_last_mat, g_chain_ok, g_steps)
+__CPROVER_loop_invariant(!A.null && g_chain_ok && direct_coarse_solve && g_steps == g_nlev && g_nlev <= (1UL << 41))
+__CPROVER_loop_invariant((prm.max_levels >= 1) ==> (g_nlev < prm.max_levels || g_nlev == 0))
+__CPROVER_loop_invariant(g_nlev == 0 ==> (A.id == __CPROVER_loop_entry(A.id) && g_last_kind == 0))
+__CPROVER_loop_invariant(g_nlev > 0 ==> (g_last_kind == K_SMOOTHER && ROWS_LE_FALSE))
+"""
+do_init = Unit(
+    name='amg_do_init', props=['C03', 'C10'],
+    functions=['amg::do_init(A, bprm)'],
+    desc='hierarchy construction loop: non-square refused; step_down chained on the level just built; direct-solver level only for <= coarse_enough rows with direct_coarse; small problems get exactly one level; level budget',
+    cuts={'body': Cut('amgcl/amg.hpp', r'void do_init\(\s*std::shared_ptr<build_matrix> A,\s*const backend_params &bprm = backend_params\(\)\s*\)\s*(?=\{)',
+                      rules=[Rule(r'PRECONDITION\(', 'PRECONDITION2((', 1, why='R-pre (void function)'),
+                             Rule(r',\s*\n?\s*"[^"]*"\s*\n?\s*\);', '));', 1, why='R-pre message dropped'),
+                             Rule(r'coarsening_type C\(prm\.coarsening\);', '', 1, why='constructor of the coarsening object dropped (opaque)'),
+                             Rule(r'levels\.push_back\( level\(A, prm, bprm\) \);', 'PUSH_LEVEL(A);', None, why='container call -> C call'),
+                             Rule(r'levels\.size\(\)', 'g_nlev', None, why='container call'),
+                             Rule(r'levels\.back\(\)\.step_down\(A, C, bprm, ([\w.]+)\)', r'bk_step_down(A, \1, self->allow_rebuild)', None, why='member call -> C call'),
+                             Rule(r'level l;\s*l\.create_coarse\(A, bprm, levels\.empty\(\)\);\s*levels\.push_back\(l\);', 'bk_push_coarse(A, g_nlev == 0);', None, why='three statements building the coarse level -> one C call'),
+                             Rule(r'!A\b', 'A.null', None, why='R-smartptr null test'),
+                             Rule(r'\*A\b', 'A', None, why='R-smartptr: handle viewed as value')],
+                      loops=[Loop(r'while\(', DO_INIT_LOOP.replace('&& ROWS_LE_FALSE', ''), prefix=True)])},
+    template=DO_INIT_T, enforce='f_do_init', replace=['bk_push_level', 'bk_push_coarse', 'bk_step_down'],
+    mode='inductive', obj_bits=12, timeout=200,
+    assumptions=A_SETUP + ['A-term: termination of the coarsening loop is not proved (level sizes are data dependent; no decreases clause)'],
+    not_decided=['level sizes strictly decrease', 'termination of the coarsening loop'],
+)
+
+UNITS = [galerkin, scaled_galerkin, aggr_coarse, sa_coarse, step_down, rebuild_level, amg_rebuild, do_init]
